@@ -15,9 +15,11 @@ def tms_fields(o):
     enc = o.encoding.value if o.encoding is not None else 0
     f = {"type": t, "ack": bool(o.header.is_acknowledged), "reserved": bool(o.header.is_reserved),
          "address": list(o.address), "cap": o.availability_header.capability.value if (t == "AVAIL" and o.availability_header) else -1,
-         "sn": -1 if sn is None else int(sn), "enc": int(enc), "message": list(o.message) if (t == "TEXT" and o.message is not None) else []}
+         "sn": -1 if sn is None else int(sn), "enc": int(enc), "message": list(o.message) if (t == "TEXT" and o.message is not None) else [],
+         # the UNDEFINED member and "no encoding" send the same octets but are different field values
+         "encundef": o.encoding is not None and int(enc) == 0}
     if t != "TEXT" and t != "ACK":
-        f["sn"], f["enc"] = -1, 0
+        f["sn"], f["enc"], f["encundef"] = -1, 0, False
     return f
 
 
@@ -105,6 +107,16 @@ def run(ctx):
                                                               address=a, sequence_number=sn, encoding=enc, message=txt))
             observe("tms", lambda: T.TextMessagingService(first_header=T.FirstHeader(has_more_headers=bool(rng.getrandbits(1)), pdu_type=T.TMSPDUType.TMS_ACKNOWLEDGEMENT),
                                                           address=rng.choice(addrs), sequence_number=sn))
+            # ... built with the UNDEFINED member of the encoding enumeration (nothing is sent for it), text and acknowledgement
+            observe("tms", lambda: T.TextMessagingService(first_header=T.FirstHeader(has_more_headers=bool(rng.getrandbits(1)), pdu_type=T.TMSPDUType.SIMPLE_TEXT_MESSAGE),
+                                                          address=rng.choice(addrs), sequence_number=sn, encoding=T.TMSEncoding.UNDEFINED,
+                                                          message=rng.choice(texts).encode("utf-16-le")))
+            if sn % 16 == 0:
+                observe("tms", lambda: T.TextMessagingService(first_header=T.FirstHeader(pdu_type=T.TMSPDUType.TMS_ACKNOWLEDGEMENT), address=rng.choice(addrs),
+                                                              sequence_number=sn, encoding=T.TMSEncoding.UNDEFINED))
+                # ... and an acknowledgement that names an encoding but no sequence number (the constructor takes it)
+                observe("tms", lambda: T.TextMessagingService(first_header=T.FirstHeader(pdu_type=T.TMSPDUType.TMS_ACKNOWLEDGEMENT), address=rng.choice(addrs),
+                                                              encoding=T.TMSEncoding.UCS2_LE))
             # an acknowledgement that names the encoding of the message it answers (the header chain allows it)
             observe("tms", lambda: T.TextMessagingService(first_header=T.FirstHeader(has_more_headers=bool(rng.getrandbits(1)), pdu_type=T.TMSPDUType.TMS_ACKNOWLEDGEMENT),
                                                           address=rng.choice(addrs), sequence_number=sn, encoding=T.TMSEncoding.UCS2_LE))
